@@ -9,7 +9,10 @@ mod checks_a;
 mod checks_b;
 mod checks_c;
 mod checks_d;
+#[cfg(feature = "kernels")]
 mod checks_e;
+#[cfg(feature = "kernels")]
+mod checks_k;
 mod e1;
 mod e3;
 mod e7;
@@ -42,6 +45,7 @@ fn main() {
 }
 
 fn real_main(args: Vec<String>) -> i32 {
+    #[cfg(feature = "kernels")]
     if args[1] == "e7gen" {
         return checks_e::e7gen();
     }
@@ -115,12 +119,20 @@ fn real_main(args: Vec<String>) -> i32 {
         "C05" => checks_b::c05(&cx, &mut rep),
         "C06" => checks_b::c06(&cx, &mut rep),
         "C07" => checks_b::c07(&cx, &mut rep),
-        "C08" => checks_b::c08(&cx, &mut rep),
+        #[cfg(feature = "kernels")]
+        "C08" => checks_k::c08(&cx, &mut rep),
         "C12" => checks_c::c12(&cx, &mut rep),
         "C13" => checks_c::c13(&cx, &mut rep),
+        #[cfg(feature = "kernels")]
         "C15" => checks_c::c15(&cx, &mut rep),
         "C16" => checks_c::c16(&cx, &mut rep),
+        #[cfg(feature = "kernels")]
         "C18" => checks_c::c18(&cx, &mut rep),
+        #[cfg(not(feature = "kernels"))]
+        "C08" | "C15" | "C18" => {
+            eprintln!("MACHINERY-ERROR: this build of the engines has no kernel hooks (fips204 does not build with verif-hooks); {id} cannot be decided");
+            return 2;
+        }
         _ => {
             eprintln!("unknown check {id}");
             return 2;
